@@ -50,7 +50,15 @@ fn render_html(r: &mut R, words: &[String], wrapper: (&str, &str), allow_a: bool
     }
     for (i, w) in words.iter().enumerate() {
         if i > 0 {
-            s.push_str(r.pick(&[" ", "  ", "\n", "\t", " \n ", " "]));
+            let ws: &str = r.pick(&[" ", "  ", "\n", "\t", " \n ", " "]);
+            if r.p(10) {
+                // the separating whitespace is the whole content of an inline element of its own, with no other
+                // whitespace next to it (added after the seeded change C04-whitespace-only-inline-dropped was missed)
+                let t: &str = r.pick(&["em", "strong", "code", "i", "s", "span"]);
+                s.push_str(&format!("<{t}>{ws}</{t}>"));
+            } else {
+                s.push_str(ws);
+            }
         }
         // split the word across inline boundaries at character granularity
         let chars: Vec<char> = w.chars().collect();
